@@ -102,7 +102,8 @@ def scenarios(draw, kinds=None, max_callers=4, limits=(1, 1, 2, 2, 3)):
             server_plans[tok] = draw(plans(h2))
         callers.append({"program": prog})
     sc = {"kind": kind, "n_origins": n_origins, "max_connections": draw(st.sampled_from(list(limits))),
-          "max_keepalive": draw(st.sampled_from([None, None, 0, 1])), "callers": callers, "plans": server_plans,
+          "max_keepalive": draw(st.sampled_from([None, None, 0, 1])), "keepalive_expiry": draw(st.sampled_from([None, None, None, 0.0, 0.4])),
+          "callers": callers, "plans": server_plans,
           "choices": draw(st.lists(st.integers(0, 11), max_size=60)),
           "segs": draw(st.lists(st.sampled_from([0, 0, 1, 2, 7, 50, 1000]), max_size=5)),
           "dsegs": draw(st.lists(st.sampled_from([0, 0, 0, 1, 20, 60, 300, 5000]), max_size=4)),
@@ -143,6 +144,8 @@ def build(sc):
         extra["retries"] = sc["retries"]
     if sc.get("max_keepalive") is not None:
         extra["max_keepalive_connections"] = sc["max_keepalive"]
+    if sc.get("keepalive_expiry") is not None:
+        extra["keepalive_expiry"] = sc["keepalive_expiry"]  # 0: an idle connection has expired by the time anybody looks at it again
     h2cfg = {"script": [dict(x) for x in sc["h2_script"]]} if sc.get("h2_script") else None
     pool_cfg, cfg, scheme = topo(sc["kind"], plans=sc["plans"], pool_extra=extra, hosts=HOSTS, h2=h2cfg)
     world = World(peer_factory=cfg.peer_factory, faults=[dict(f) for f in sc["faults"]])
